@@ -400,6 +400,10 @@ def r2(ctx: Ctx, rep: Report, wire: Wire):
                 in_branch = any(ev.kind == "test" and isinstance(ev.node, ast.Compare) and isinstance(ev.node.ops[0], ast.In) and ev.data is True
                                 and all(m in norm(ev.node) for m in modes) for ev in p.events)
                 if not in_branch:
+                    from .c19 import mode_of_path as _mop          # (the same selection written as == ... or == ...)
+                    _sel = _mop(ctx, p, fn.params[1])
+                    in_branch = bool(_sel) and _sel <= set(modes)
+                if not in_branch:
                     continue
             w = _write_events(ctx, wire, fn, p)
             sym = r.sym
